@@ -316,9 +316,10 @@ def rule_S1_S6(ctx: Ctx, fam: str, only: set[str] | None = None, s4_only: bool =
             lab = masked_label(S, f, a, mparams, mfields)
             if not lab:
                 continue
-            if lab == {'pipe'}:
+            if lab == {'pipe'} and not creates:
                 pipe_ctl = True
                 continue
+            # group creation is a collective of the whole world: per-stage control is rank-dependent control there
             j = S.grid_size_test(f, a) if creates else justify(S, f, c, a, pol, via, effs)
             if j:
                 just.append(f'{j}:{norm(a)}')
